@@ -113,7 +113,8 @@ class Ctx:
         cov.setdefault("checker_cmd", checker_cmd)
         ev = {
             "property_id": self.pid, "tier": self.tier, "seed": self.seed, "level": level,
-            "coverage": cov, "assumptions": list(self.assumptions) + list(extra_assumptions),
+            "coverage": cov,
+            "assumptions": (list(self.assumptions) + list(extra_assumptions)) or list(cov.get("trusted_base", [])),
             "wall_s": round(time.time() - self.t0, 1), "violations": len(self.violations),
             "known_findings_reported": self.known,
         }
